@@ -24,7 +24,8 @@ Ints18 == { DD(FALSE, <<>>, 0), DD(FALSE, <<1>>, 0), DD(TRUE, <<1>>, 0), DD(FALS
             DD(FALSE, <<2,5,5>>, 0), DD(FALSE, <<2,5,6>>, 0), DD(TRUE, <<2,5,6>>, 0), DD(FALSE, <<6,5,5,3,5>>, 0), DD(FALSE, <<4,2,9,4,9,6,7,2,9,6>>, 0),
             DD(TRUE, <<2,1,4,7,4,8,3,6,4,8>>, 0), DD(FALSE, <<9,0,0,7,1,9,9,2,5,4,7,4,0,9,9,1>>, 0), DD(TRUE, <<9,0,0,7,1,9,9,2,5,4,7,4,0,9,9,1>>, 0),
             DD(FALSE, <<1,2,3,4,5,6,7,8,9>>, 0), DD(FALSE, <<1,5>>, -1), DD(TRUE, <<2,7>>, -1) }
-Texts == { <<49,50>>, <<45,49,46,53>>, <<49,101,51>>, <<48,48,55>>, <<97,98,99>>, <<>>, <<49,120>>, <<46,53>>, <<53,46>>, <<45,48>>, <<49,50,51,46,52,53,54,101,45,50>> }
+Texts == { <<49,50>>, <<45,49,46,53>>, <<49,101,51>>, <<48,48,55>>, <<97,98,99>>, <<>>, <<49,120>>, <<46,53>>, <<53,46>>, <<45,48>>, <<49,50,51,46,52,53,54,101,45,50>>,
+           <<45>>, <<43>>, <<105,110>>, <<110,97>>, <<105>>, <<105,110,102,105,110,105,116>>, <<45,105,110>>, <<32>>, <<49,32>> }
 
 GroupsC18 == { <<"unary", f>> : f \in {"abs", "ceil", "floor", "round", "roundBank", "toInt", "toFloat", "finite"} }
              \cup { <<"law">>, <<"conv">>, <<"tilde">> } \cup { <<"maxmin", a>> : a \in Small } \cup { <<"bit", a>> : a \in Ints18 }
